@@ -304,6 +304,65 @@ def after_pick(which):
     return f
 
 
+# ---------------------------------------------------------- annotation point: right after `dis = ...`
+def after_dis(which):
+    """The matrix the loop works on IS the matrix of Euclidean distances of the (soma +) points - proved for the expression the carrier
+    computes, over the reals - and it is computed without cancellation of rounded quantities (float clause, static).  After that the
+    matrix is renamed to the abstract ghost function edist (definition: the same expression), of which only edist >= 0, symmetry and
+    the zero diagonal - each proved from the definition - are kept: the loop's proof stays in linear arithmetic."""
+    def f(E, v, o):
+        from pyvc.engine import Unsupported
+
+        if E.ghost.get("c17-dis-annotated"):
+            return True
+        dis, P = v["dis"], v["points"]
+        if not (isinstance(dis, X.M2) and dis.kind == "real" and isinstance(P, X.Points)):
+            return False
+        n = P.nz()
+        a, b = z3.Ints("ed_a ed_b")
+        inr = z3.And(0 <= a, a < n, 0 <= b, b < n)
+        if which == "an-n-by-n-matrix":
+            return z3.And(dis.nz() == n, dis.mz() == n)
+        if which == "every-entry-is-the-euclidean-distance-of-the-two-points":
+            goal = z3.ForAll([a, b], z3.Implies(inr, X.sel2(dis.arr, a, b) == X.RSQRT(X.sumsq(P, a, b))))
+            E.prove(f"{FN}/distance-matrix/{which}", goal, "postcondition", "real-number semantics of the expression the carrier computes")
+            return goal
+        if which == "computed-without-cancellation-of-rounded-operands":
+            fp = getattr(dis, "fp", None)
+            if fp is None:
+                raise Unsupported("rounding-error bookkeeping lost on the way to the distance matrix (an operation without an FP rule)")
+            note = ("float clause (static forward-error rule, NOT a floating-point semantics): every + / - on the way from the input coordinates to the matrix combines exact inputs, or "
+                    f"operands of coherent sign; then each entry has a relative error of at most gamma_k, k <= {fp.ops}")
+            for what, formula in fp.sites:
+                E.prove(f"{FN}/float/distance-matrix-is-{which}", formula, "postcondition", note + f"; site: {what}")
+            if not fp.sites:
+                E.prove(f"{FN}/float/distance-matrix-is-{which}", z3.BoolVal(True), "postcondition", note)
+            E.assumptions.add("float clause of C17 (distance matrix only): relative error <= gamma_k for an expression whose additions / subtractions never combine rounded operands of "
+                              "incoherent sign (standard forward-error analysis; the rule is applied to the model's expression, it is not a floating-point semantics)")
+            return True
+        if which == "renamed-to-the-abstract-distance-function":
+            ED = z3.Function(fresh_name("edist"), I, I, z3.RealSort())
+            x = z3.Real("ed_x")
+            defn = z3.ForAll([a, b], ED(a, b) == X.RSQRT(X.sumsq(P, a, b)), patterns=[ED(a, b)])
+            rs = [z3.ForAll([x], X.RSQRT(x) >= 0, patterns=[X.RSQRT(x)]), X.RSQRT(z3.RealVal(0)) == 0]
+            E.assumptions.add("ghost definition: edist(a, b) := rsqrt((x_a - x_b)^2 + (y_a - y_b)^2 + (z_a - z_b)^2) for the rows of the (soma +) point cloud; after the distance matrix has been "
+                              "proved equal to it, the loop's proof uses only edist >= 0, edist(a, b) = edist(b, a), edist(a, a) = 0, each proved from the definition and rsqrt >= 0, rsqrt(0) = 0")
+            for nm, g in (("non-negative", z3.ForAll([a, b], ED(a, b) >= 0, patterns=[ED(a, b)])),
+                          ("symmetric", z3.ForAll([a, b], ED(a, b) == ED(b, a), patterns=[ED(a, b)])),
+                          ("zero-on-the-diagonal", z3.ForAll([a], ED(a, a) == 0, patterns=[ED(a, a)]))):
+                prove_from(E, f"{FN}/distance-matrix/euclidean-distance-is-{nm}", [defn] + rs, g)
+            dis.arr = X.lam2(lambda p, q: ED(p, q))  # equal to the proved contents on all rows / columns in range, by the definition of edist
+            E.ghost["c17-dis-annotated"] = True
+            return True
+        raise KeyError(which)
+
+    return f
+
+
+AFTER_DIS = ["an-n-by-n-matrix", "every-entry-is-the-euclidean-distance-of-the-two-points", "computed-without-cancellation-of-rounded-operands",
+             "renamed-to-the-abstract-distance-function"]
+
+
 def argmin_hint(E, v):
     """proof step for `argmin-some-unmasked-entry`: the most recently attached node has no children yet, the next
     position of the attachment order holds an unconnected node"""
@@ -615,7 +674,7 @@ def register(R: Registry):
         loops={0: dict(invariant=[(x, inv(x)) for x in INVS], modifies=["g_pos", "g_perm", "g_crank", "g_kid", "g_depth", "g_nk"])},
         options=dict(
             registry=_Overlay(R, local),
-            asserts_after={"i": [(x, after_pick(x)) for x in after_i], "t": [(x, after_tree(x)) for x in after_t]},
+            asserts_after={"dis": [(x, after_dis(x)) for x in AFTER_DIS], "i": [(x, after_pick(x)) for x in after_i], "t": [(x, after_tree(x)) for x in after_t]},
             hints={"safety/argmin-some-unmasked-entry": argmin_hint, "loop0/preserved/every-attachment-so-far-was-greedy": greedy_hint, **step_hints()},
         ),
         notes="n symbolic; dis abstract (edist >= 0, symmetric, zero diagonal); bf, K, exclude_soma, sort symbolic; names=None, and one concrete non-default SWCNames for the deprecated keyword. "
